@@ -89,6 +89,24 @@ def run(ctx):
     if ctx.replay:
         return verdict.finish()
     evs = vlib.read_ndjson(trace) if os.path.exists(trace) else []
+    extras = []
+    if pid == "C12":
+        # beyond the listed properties: the segment-list helpers a router builds its update with (prepend / append / pop
+        # of Secure_Path and Signature segments, path_len / sigs_len), judged call by call by BgpsecSegTrace.tla
+        from tracecheck import extra_conformance
+        r = vlib.run_tlc("BgpsecSeg", "BgpsecSeg.cfg", pid + "-seg", workers=4, timeout=300)
+        exe_s = vlib.build_harness(pid, "asan", ["bgpsecseg_harness.c"], objs, exe="h_seg")
+        t_seg = os.path.join(wd, "seg.ndjson")
+        ncalls = 4000 if tier == "quick" else 40000
+        rc_s, out_s = vlib.sh([exe_s, str(seed), str(ncalls), t_seg], env=vlib.SAN_ENV, timeout=300)
+        if rc_s == 0:
+            x = extra_conformance(ctx, wd, "BgpsecSegTrace", "BgpsecSegTrace.cfg", "OK_EXT", t_seg,
+                                  "rtr_bgpsec_{prepend,append}_{sec_path,sig}_seg / pop_*: both lists and both counters after every call (BgpsecSeg.tla)")
+        else:
+            x = {"what": "segment-list helpers", "spec": "BgpsecSegTrace", "accepted": False, "harness_exit": rc_s, "output": out_s[-400:]}
+        x["model"] = {"spec": "BgpsecSeg.tla / BgpsecSeg.cfg", "ok": bool(r.ok and r.violation is None), "distinct_states": r.distinct,
+                      "checked": ["CountersExact", "PopUndoesPrepend", "RejectChangesNothing"]}
+        extras.append(x)
     rel = [e for e in evs if (e["e"] == "val") == (pid == "C11")]
     rcode = verdict.finish()
     vlib.write_evidence(pid, tier, seed, "exploration", {
@@ -97,5 +115,6 @@ def run(ctx):
         "samples": rel[:3], "traces_validated_against_impl": tc.traces,
         "explanation": "TLA+ decides the decision structure (which results are admissible for which key table / corruption / argument error); ECDSA, SHA-256 and the RFC 8205 byte layout are decided by OpenSSL and the harness's independent serialiser",
         "known_findings_hit": [k for k, _ in verdict.known],
+        "extra_conformance": extras,
     }, time.time() - t0, len(verdict.violations), ["OpenSSL libcrypto and the harness's RFC 8205 serialiser are the trusted base for the cryptographic part", "ASan build"])
     return rcode
